@@ -103,7 +103,12 @@ def _norm_mem(self):
 
 def _mk_view(self):
     from rig.machine_control.machine_controller import SlicedMemoryIO
+    from pyvc.replay import OutsideHarness
+    if not (0 <= self._start_address <= self._end_address <= 4096):
+        raise OutsideHarness()
     par = _Parent(self._parent._freed, None)
+    par.mem[:] = bytes((7 * i + 3) % 251 for i in range(4096))
+    self._parent.mem = bytes(par.mem)          # the pre-state memory the contract text is evaluated on
     v = SlicedMemoryIO(par, self._start_address, self._end_address)
     v._end_address = self._end_address
     v._offset = self._offset
@@ -196,7 +201,7 @@ class Write:
     def ensures_changes_no_other_byte(self, bytes, self_post):
         want = transferable(self, seq_len(bytes))
         base = self._start_address + self._offset
-        return forall_range(-4096, 1 << 33, lambda a: implies(not (base <= a < base + want),
+        return forall_range(0, seq_len(self._parent.mem), lambda a: implies(not (base <= a < base + want),
                             select(self_post._parent.mem, a) == select(self._parent.mem, a)))
 
     def ensures_frame(self, self_post):
